@@ -387,6 +387,33 @@ pub fn run(ctx: &Ctx) -> i32 {
       }
     } else {
       let cells = class_cells(d);
+      // delta_depth sweep: EVERY delta_depth up to 12 (16 thorough) on three cells of four depths
+      if d == 10 || d == 17 || d == 7 || d == 13 {
+        let dmax = if quick { 12u8 } else { 16 };
+        let n = nside(d) as u32;
+        for h in [encode(d, 2, n - 1, n - 1), encode(d, 5, n / 3 + 1, 0), encode(d, 9, (n / 5) | 1, (n / 7) | 2)] {
+          for delta in 4..=dmax {
+            if d + delta > 29 {
+              continue;
+            }
+            part.stratum("delta-depth-sweep", 1, 22);
+            if let Some(v) = check(d, h, delta, delta % 2 == 0, &mut part) {
+              part.viol(v);
+            }
+          }
+        }
+      }
+      for &h in carry_cells(d, false).iter().step_by(if quick { 3 } else { 1 }) {
+        for delta in [1u8, 2] {
+          if d + delta > 29 {
+            continue;
+          }
+          part.stratum("carry-chain-cells", 1, 22);
+          if let Some(v) = check(d, h, delta, (h + delta as u64) % 2 == 0, &mut part) {
+            part.viol(v);
+          }
+        }
+      }
       for &h in &cells {
         for delta in 1..=3u8 {
           if d + delta > 29 {
